@@ -127,16 +127,18 @@ PLAN = {
         "quick": [
             {"run": "TestC11_Programs", "checks": 150, "race": True},
             {"run": "TestC11_LRULinearizable", "checks": 1000, "race": True},
+            {"run": "TestC11_FirstUse", "checks": 60, "race": True},
         ],
         "thorough": [
             {"run": "TestC11_Programs", "checks": 3000, "race": True, "shards": 8, "timeout": 3000},
             {"run": "TestC11_LRULinearizable", "checks": 20000, "race": True, "shards": 8, "timeout": 3000},
+            {"run": "TestC11_FirstUse", "checks": 2000, "race": True, "shards": 4, "timeout": 3000},
         ],
     },
     "C12": {
         "quick": [
             {"run": "TestC12_Model", "checks": 4000},
-            {"run": "TestC12_Timed", "checks": 60},
+            {"run": "TestC12_Timed", "checks": 120},
         ],
         "thorough": [
             {"run": "TestC12_Model", "checks": 200000, "shards": 12, "timeout": 3000},
